@@ -170,9 +170,20 @@ Record files_ok (files : list file) (total : N) : Prop := {
 Lemma map_eq_nil_inv : forall (A B : Type) (f : A -> B) l, map f l = [] -> l = [].
 Proof. destruct l; simpl; [reflexivity | discriminate]. Qed.
 
+(* FileList::initialize let the sizes through *)
+Definition fits (total cs : N) : Prop := cs <> 0 /\ u64 (total + cs - 1) / cs <= two32 - 1.
+
+Lemma fl_initialize_check_none : forall total cs, fl_initialize_check total cs = None -> fits total cs.
+Proof.
+  intros total cs H. unfold fl_initialize_check in H.
+  destruct (cs =? 0) eqn:E1; [discriminate|].
+  destruct (two32 - 1 <? u64 (total + cs - 1) / cs) eqn:E2; [discriminate|].
+  apply N.eqb_neq in E1. apply N.ltb_ge in E2. split; assumption.
+Qed.
+
 Lemma parse_multi_files_ok : forall fv cs files total chunks,
   parse_multi_files fv cs = LOk (files, total, chunks) ->
-  files_ok files total /\ total < two63 /\ chunks = size_chunks_of total cs /\ cs <> 0 /\
+  files_ok files total /\ total < two63 /\ chunks = size_chunks_of total cs /\ fits total cs /\
   Forall (fun f => (f_r1 f, f_r2 f) = set_range (f_offset f) (f_size f) cs) files.
 Proof.
   intros fv cs files total chunks H. unfold parse_multi_files in H.
@@ -180,7 +191,7 @@ Proof.
   destruct l as [|o l]; [discriminate|].
   destruct (parse_entries (o :: l) 0%Z []) as [[splits tz]| |] eqn:Ep; cbn [bind] in H; try discriminate.
   destruct (adjacent_prefix (sort_paths (map (fun s : N * path * bool => snd (fst s)) splits))) eqn:Eadj; [discriminate|].
-  destruct (cs =? 0) eqn:Ecs; [discriminate|].
+  destruct (fl_initialize_check (Z.to_N tz) cs) eqn:Ecs; [discriminate|].
   destruct (negb (snd (split_files splits 0 cs) =? u64 (0 + Z.to_N tz))) eqn:E1; [discriminate|].
   destruct (negb (verify_depths (fst (split_files splits 0 cs)))) eqn:E2; [discriminate|].
   inversion H; subst. clear H.
@@ -192,8 +203,8 @@ Proof.
   { unfold two63. unfold int64_max_z in Lt. lia. }
   destruct (split_files_ok new 0 cs) as (A & B & C & D & E & F & G).
   { unfold two64. unfold two63 in Hb. lia. }
-  apply N.eqb_neq in Ecs.
-  split; [constructor|]; [ | | | | | repeat split; auto].
+  apply fl_initialize_check_none in Ecs. rewrite Hsum in Ecs. destruct Ecs as [Ec1 Ec2].
+  split; [constructor|]; [ | | | | | rewrite Hsum; repeat split; auto].
   - intro C0. rewrite C0 in A. simpl in A. symmetry in A. apply map_eq_nil_inv in A.
     subst new. simpl in Ln. discriminate.
   - assert (Fp : Forall valid_path (map f_path (fst (split_files new 0 cs)))).
@@ -202,14 +213,14 @@ Proof.
   - rewrite A. apply adjacent_check_sound. exact Eadj.
   - exact E.
   - rewrite F. symmetry. exact Hsum.
-  - rewrite Hsum. exact Hb.
 Qed.
 
 Lemma parse_single_file_ok : forall im cs files total chunks,
   parse_single_file im cs = LOk (files, total, chunks) ->
-  files_ok files total /\ chunks = size_chunks_of total cs /\ cs <> 0 /\
+  files_ok files total /\ chunks = size_chunks_of total cs /\ fits total cs /\
   Forall (fun f => (f_r1 f, f_r2 f) = set_range (f_offset f) (f_size f) cs) files /\
-  exists name, get_key im k_name = LOk (VStr name) /\ map f_path files = [[name]].
+  (exists name, get_key im k_name = LOk (VStr name) /\ map f_path files = [[name]]) /\
+  (cs = 1 \/ exists len, get_key im k_length = LOk (VInt len) /\ total = Z.to_N len).
 Proof.
   intros im cs files total chunks H. unfold parse_single_file in H.
   destruct (get_key im k_name) as [nv| |] eqn:En; cbn [bind] in H; try discriminate.
@@ -217,16 +228,19 @@ Proof.
   destruct nv as [|name| |]; simpl in Ev; try discriminate.
   match type of H with bind ?r _ = _ => destruct r as [len| |] eqn:Elen end; cbn [bind] in H; try discriminate.
   destruct (len <? 0)%Z eqn:Eneg; [discriminate|].
-  destruct (cs =? 0) eqn:Ecs; [discriminate|].
+  destruct (fl_initialize_check (Z.to_N len) cs) eqn:Ecs; [discriminate|].
   cbn [as_string bind] in H. rewrite push_back_valid in H by exact Ev. simpl in H.
-  inversion H; subst. clear H. apply N.eqb_neq in Ecs.
+  inversion H; subst. clear H. apply fl_initialize_check_none in Ecs.
   split; [constructor|]; simpl.
   - discriminate.
   - constructor; [|constructor]. split; [discriminate|]. simpl. constructor; auto.
   - repeat constructor.
   - auto.
   - lia.
-  - repeat split; auto.
-    + constructor; [|constructor]. unfold mk_file; simpl. destruct (set_range 0 (Z.to_N len) cs); reflexivity.
-    + exists name. auto.
+  - split; [reflexivity|]. split; [exact Ecs|].
+    split; [constructor; [|constructor]; unfold mk_file; simpl; destruct (set_range 0 (Z.to_N len) cs); reflexivity|].
+    split; [exists name; auto|].
+    destruct (cs =? 1) eqn:E1; [left; apply N.eqb_eq; exact E1|]. right.
+    destruct (get_key im k_length) as [lv| |]; cbn [bind] in Elen; try discriminate.
+    destruct lv; simpl in Elen; try discriminate. injection Elen as ->. exists len. auto.
 Qed.
